@@ -4,7 +4,8 @@ C12 - hidden objects leave no trace; private objects are always marked private.
         built in linker.taglink, behind a visibility test whose failing branch returns a non-link
   R12.2 listing producers: every enumeration of model objects in the writers filters on visibility
   R12.3 visibility inherits from containers
-  R12.4 private marker present at every listing-entry constructor
+  R12.4 private marker present at every listing-entry constructor (in the function or the private helpers it builds its entries in); a class string that is
+        RETURNED has had the privacy decision on every returning path
   R12.5 generated mentions: the class index files a class under the written name of a base only when that base is not a documented object;
         the "overrides" note is only produced for a visible member; "from <interface>", "(via ...)" and the documented/total counts of an
         undocumented container only name or count visible objects
